@@ -147,8 +147,13 @@ def run(rec, tier, seed, only=None):
                 target = ''.join(a + b for a, b in zip(letters, mods))
                 for i in range(n):
                     for j in range(i + 1, n + 1):
-                        for variant in range(3):
+                        for variant in range(4):
                             ql, qm = list(letters[i:j]), list(mods[i:j])
+                            if variant == 3:
+                                # the same modifications written in the other order on each residue: the same modified residues
+                                if '[Oxidation][1.5]' not in qm:
+                                    continue
+                                qm = ['[1.5][Oxidation]' if x == '[Oxidation][1.5]' else x for x in qm]
                             if variant == 1:
                                 qm[0] = '' if qm[0] else '[Oxidation]'
                             if variant == 2:
@@ -164,7 +169,8 @@ def run(rec, tier, seed, only=None):
     # terminal modifications and repeated listed subsequences with equal residues but different modifications
     extra = [('[Acetyl]-AKA[1.5]K', ['AK', '[Acetyl]-AK', 'A[1.5]K', 'AK']), ('AAPEPS[Phospho]KAAPEPSKAA', ['PEPSK', 'PEPS[Phospho]K']),
              ('AKP[1][1]EAKP[1]E', ['KP[1]E', 'KP[1][1]E']), ('PEPTIDE-[Amidated]', ['IDE', 'IDE-[Amidated]', 'PEP']),
-             ('K[1.5]K[1.5]K[1.5]K', ['K[1.5]K', 'K[1.5]K[1.5]', 'KK'])]
+             ('K[1.5]K[1.5]K[1.5]K', ['K[1.5]K', 'K[1.5]K[1.5]', 'KK']),
+             ('EP[Phospho][1]KP[1][Phospho]', ['P[1][Phospho]', 'P[Phospho][1]K', 'KP[Phospho][1]', 'P[1]'])]
     for target, subs in extra:
         for acc in (False, True):
             for ign in (False, True):
